@@ -206,8 +206,15 @@ func WriteFail(id string, c interface{}, f *Failure) string {
 	}
 	p := filepath.Join(dir, fmt.Sprintf("fail-%s-%s.json", id, Shard()))
 	b, _ := json.MarshalIndent(caseFile{Property: id, Signature: f.Signature, Message: f.Message, Case: c}, "", " ")
-	_ = os.WriteFile(p, b, 0o644)
+	atomicWrite(p, b)
 	return p
+}
+
+func atomicWrite(p string, b []byte) {
+	tmp := p + ".tmp"
+	if err := os.WriteFile(tmp, b, 0o644); err == nil {
+		_ = os.Rename(tmp, p)
+	}
 }
 
 // Current persists the case about to be executed, for attribution if the process dies.
@@ -218,7 +225,7 @@ func Current(id string, c interface{}) {
 	}
 	p := filepath.Join(dir, fmt.Sprintf("current-%s-%s.json", id, Shard()))
 	b, _ := json.Marshal(caseFile{Property: id, Case: c})
-	_ = os.WriteFile(p, b, 0o644)
+	atomicWrite(p, b)
 }
 
 // LoadCase reads a replay file into dst (the Case part) and returns property + recorded signature.
